@@ -16,7 +16,7 @@ pub fn def() -> PropertyDef {
     PropertyDef {
         id: "C14",
         level: "exploration",
-        props: |_| vec![Box::new(Postfilter) as Box<dyn DynProp>, Box::new(PostfilterAfterHistory) as Box<dyn DynProp>, Box::new(PostfilterAfterUnvoiced) as Box<dyn DynProp>, Box::new(super::c06::AfterFrames(1)) as Box<dyn DynProp>],
+        props: |_| vec![Box::new(Postfilter) as Box<dyn DynProp>, Box::new(PostfilterAfterHistory) as Box<dyn DynProp>, Box::new(PostfilterAfterUnvoiced) as Box<dyn DynProp>, Box::new(super::c06::AfterFrames(1)) as Box<dyn DynProp>, Box::new(PostfilterEngine) as Box<dyn DynProp>],
         extra: no_extra,
         replay_custom: no_custom,
         assumptions: &[
@@ -312,6 +312,42 @@ impl Prop for PostfilterAfterUnvoiced {
         rep.nontrivial = b.beta > 0.0;
         rep.class(if c.stage == 0 { "mel-cepstral" } else { "lsp" });
         rep.class(format!("unvoiced-frames:{}", c.n_unvoiced));
+        Ok(rep)
+    }
+}
+
+/// The statement is about synthesis with a postfilter coefficient beta, which a caller sets on the
+/// engine's condition: the beta that reaches the vocoder must be the one that was set, however small.
+/// For generated mel-cepstral voices the engine's waveform must equal the rendering of its own
+/// trajectories by a Vocoder built with exactly that beta (C01's differential, restricted to
+/// beta > 0 and run on every C14 run; the vocoder-level sub-checks above decide what that beta does).
+pub struct PostfilterEngine;
+
+impl Prop for PostfilterEngine {
+    type Case = super::c01::Case;
+    fn name(&self) -> String {
+        "postfilter-engine".into()
+    }
+    fn rule(&self) -> String {
+        "generated mel-cepstral voice files, 1..12 labels, condition inside the envelope with beta log-uniform in [1e-4, 0.5] set through Condition::set_beta: Engine::synthesize == Vocoder(.., beta, ..) applied to the generator's trajectories (1e-9), plus all of C01's clauses. Non-trivial: >= 2 labels".into()
+    }
+    fn tape_len(&self, _: Tier) -> usize {
+        12000
+    }
+    fn cases(&self, tier: Tier) -> u32 {
+        tier.pick(500, 15_000)
+    }
+    fn decode(&self, t: &mut Tape, _: Tier) -> Self::Case {
+        let mut base = crate::engine_case::gen_engine_case(t, 11, 0, false, crate::voice::GenOpts { lsp: Some(false), ..Default::default() });
+        if base.labels.is_empty() {
+            base.labels = crate::corpus::gen_label_lines(t, 1, false).0;
+        }
+        base.cond.beta = t.log_uniform(1e-4, 0.5);
+        super::c01::Case { base, alignment: false, times: None, prior_voice: None }
+    }
+    fn check(&self, c: &Self::Case) -> Result<Report, Failure> {
+        let mut rep = super::c01::Synthesis.check(c)?;
+        rep.class(format!("beta:{}", if c.base.cond.beta < 0.01 { "<0.01" } else if c.base.cond.beta < 0.1 { "0.01-0.1" } else { ">=0.1" }));
         Ok(rep)
     }
 }
